@@ -37,7 +37,7 @@ def check(ctx, tier):
     W.report(ctx, tk, "C14.f", fs + us)
     tk.purity("C14.p", [ctx.func(q) for q in ['runlengtharray.RunLengthArray.from_array', 'runlengtharray.RunLengthArray.to_array', 'runlengtharray.RunLengthArray.__array__', 'runlengtharray.RunLengthArray.remove_empty_intervals', 'runlengtharray.RunLengthArray.join_runs', 'runlengtharray.RunLengthArray._step_subset']], "the operation does not write into its operands' buffers", content_only=True)
     from .. import hazards as _hz, scopes as _sc
-    _hz.generic(ctx, tk, "C14.z", _sc.scope(tk, "C14", depth=2))
+    _hz.generic(ctx, tk, "C14.z", _sc.scope(tk, "C14", depth=1))
     return {}
 
 
